@@ -40,6 +40,8 @@ const (
 	F42 = "F42-enum-zero-rendered-as-empty-string"
 	// F43: TogNMINotifications panics on a wrapper union that holds the UNSET value of an enumeration.
 	F43 = "F43-wrapper-union-unset-enum-panic"
+	// F44: an enumeration member with YANG value -1 gets Go value 0, which is UNSET.
+	F44 = "F44-enum-value-minus-one-is-unset"
 )
 
 // enumHolder is a leaf or leaf-list whose type is (or, for unions, contains) an enumerated type.
@@ -291,7 +293,13 @@ type defJSON struct {
 // enumeration Go values ordered like the YANG values, identity defining modules equal.
 func matchSpec(defs map[int64]defJSON, s *memberSpec) error {
 	names := map[string]int64{}
-	for x, d := range defs {
+	var xs []int64
+	for x := range defs {
+		xs = append(xs, x)
+	}
+	sort.Slice(xs, func(i, j int) bool { return xs[i] < xs[j] })
+	for _, x := range xs {
+		d := defs[x]
 		if x == 0 {
 			return fmt.Errorf("value 0 (UNSET) is defined as %q", d.Name)
 		}
@@ -310,7 +318,8 @@ func matchSpec(defs map[int64]defJSON, s *memberSpec) error {
 		return fmt.Errorf("names %q, goyang has %q", have, want)
 	}
 	if s.ident {
-		for x, d := range defs {
+		for _, x := range xs {
+			d := defs[x]
 			if d.Mod != s.mods[d.Name] {
 				return fmt.Errorf("identity %s (value %d) has defining module %q, YANG defines it in %q", d.Name, x, d.Mod, s.mods[d.Name])
 			}
@@ -850,10 +859,14 @@ func dedupe(l []string) []string {
 
 type flagCombo struct {
 	pkg    string
-	corpus string // "vt" or "voc": which registered variant supplies the goyang expectations
+	corpus string // "vt" or "voc": which registered variant supplies the goyang expectations; "t2neg": props/t2/testdata/yang
 	yang   []string
 	flags  pipeline.Flags
 }
+
+// t2negDir holds a small module with negative enumeration values (not part of the corpus: the
+// witness of F44).
+func t2negDir() string { return filepath.Join(pipeline.HarnessDir(), "props", "t2", "testdata", "yang") }
 
 func baseFlags() pipeline.Flags {
 	return pipeline.Flags{FakeRoot: true, FakeRootName: "device", YangPresence: true, Getters: true, Append: true, Delete: true, Rename: true, LeafGetters: true, PopulateDefaults: true, SimpleUnions: true}
@@ -872,10 +885,11 @@ func c17Combos() []flagCombo {
 		mk("xb", "voc", voc, func(f *pipeline.Flags) { f.Compress = true; f.ShortenEnumLeafNames = true }),
 		mk("xc", "voc", voc, func(f *pipeline.Flags) { f.TypedefEnumWithDefmod = true; f.EnumSuffixSimpleUnion = true }),
 		mk("xd", "vt", vt, func(f *pipeline.Flags) { f.TypedefEnumWithDefmod = true; f.SkipEnumDedup = true }),
+		mk("xn", "t2neg", []string{"t2neg.yang"}, func(f *pipeline.Flags) {}),
 	}
 }
 
-// expectedByPath maps a schema path as used by ΛEnumTypes ("/module/a/b") to goyang's specs of the
+// expectedByPath maps a schema path as used by ΛEnumTypes ("/a/b": data-tree path without module) to goyang's specs of the
 // enumerated (member) types of that leaf, taken from the struct table of an uncompressed variant.
 func expectedByPath(v *model.Variant) (map[string][]*memberSpec, error) {
 	out := map[string][]*memberSpec{}
@@ -920,10 +934,11 @@ import (
 type def struct{ Name, Mod string }
 
 type pkgDump struct {
-	Enum   map[string]map[string]def
-	Types  map[string][]string
-	Errors []string
-	Checks int
+	Enum        map[string]map[string]def
+	Types       map[string][]string
+	Errors      []string
+	ZeroDefined []string
+	Checks      int
 }
 
 func inspect(enum map[string]map[int64]ygot.EnumDefinition, types map[string][]reflect.Type) pkgDump {
@@ -958,6 +973,10 @@ func inspect(enum map[string]map[int64]ygot.EnumDefinition, types map[string][]r
 		var max int64
 		for x, e := range defs {
 			d.Enum[n][fmt.Sprint(x)] = def{e.Name, e.DefiningModule}
+			if x == 0 {
+				d.ZeroDefined = append(d.ZeroDefined, n+"."+e.Name)
+				continue
+			}
 			if prev, dup := seen[e.Name]; dup {
 				bad("%%s: name %%q defined for values %%d and %%d", n, e.Name, prev, x)
 			}
@@ -1008,10 +1027,36 @@ func main() {
 `
 
 type childDump struct {
-	Enum   map[string]map[string]defJSON
-	Types  map[string][]string
-	Errors []string
-	Checks int
+	Enum        map[string]map[string]defJSON
+	Types       map[string][]string
+	Errors      []string
+	ZeroDefined []string
+	Checks      int
+}
+
+// expectedT2neg reads the enumerated leaves of the t2neg module straight from goyang.
+func expectedT2neg() (map[string][]*memberSpec, error) {
+	_, root, err := model.LoadYANG(t2negDir(), []string{"t2neg.yang"})
+	if err != nil {
+		return nil, err
+	}
+	out := map[string][]*memberSpec{}
+	var walk func(e *yang.Entry, path string)
+	walk = func(e *yang.Entry, path string) {
+		if e.Type != nil && e.Type.Kind == yang.Yenum && e.Type.Enum != nil {
+			out[path] = []*memberSpec{{values: e.Type.Enum.NameMap()}}
+		}
+		var names []string
+		for n := range e.Dir {
+			names = append(names, n)
+		}
+		sort.Strings(names)
+		for _, n := range names {
+			walk(e.Dir[n], path+"/"+n)
+		}
+	}
+	walk(root, "")
+	return out, nil
 }
 
 // TestC17_Flags generates further enum-naming flag combinations of both corpora into a scratch
@@ -1046,7 +1091,11 @@ func TestC17_Flags(t *testing.T) {
 	var imports, entries []string
 	for _, c := range combos {
 		dir := sc.Sub(c.pkg)
-		r := pipeline.RunGenerator(pipeline.Input{Name: "corpus:" + c.corpus, Dir: pipeline.CorpusDir(), Roots: c.yang}, c.flags, dir, c.pkg)
+		in := pipeline.Input{Name: "corpus:" + c.corpus, Dir: pipeline.CorpusDir(), Roots: c.yang}
+		if c.corpus == "t2neg" {
+			in.Dir = t2negDir()
+		}
+		r := pipeline.RunGenerator(in, c.flags, dir, c.pkg)
 		if r.Failed() {
 			t.Fatalf("INCONCLUSIVE: generator failed for flag combination %s (%s): %v\n%s", c.pkg, c.flags, r.Err, pipeline.Trunc(r.Output, 3000))
 		}
@@ -1093,6 +1142,15 @@ func TestC17_Flags(t *testing.T) {
 		}
 		expected[corpus] = ex
 	}
+	if expected["t2neg"], err = expectedT2neg(); err != nil {
+		t.Fatalf("HARNESS-BUG: t2neg: %v", err)
+	}
+	rec.Witness(F44, func() (bool, string) {
+		if z := dump["xn"].ZeroDefined; len(z) > 0 {
+			return true, fmt.Sprintf("props/t2/testdata/yang/t2neg.yang: ΛEnum defines Go value 0 (UNSET) for %v (YANG value -1)", z)
+		}
+		return false, ""
+	})
 	for _, c := range combos {
 		d, ok := dump[c.pkg]
 		if !ok {
@@ -1100,6 +1158,24 @@ func TestC17_Flags(t *testing.T) {
 		}
 		for _, e := range d.Errors {
 			t.Errorf("C17 violated (flags %s): %s", c.flags, e)
+		}
+		zeroKnown := false
+		for _, z := range d.ZeroDefined {
+			// trigger: the member's YANG value is -1 (Go value = YANG value + 1)
+			tn, member, _ := strings.Cut(z, ".")
+			minusOne := false
+			for _, specs := range expected[c.corpus] {
+				for _, sp := range specs {
+					if v, ok := sp.values[member]; ok && v == -1 {
+						minusOne = true
+					}
+				}
+			}
+			if rec.Excuse(F44, minusOne) {
+				zeroKnown = true
+				continue
+			}
+			t.Errorf("C17 violated (flags %s): ΛEnum[%s] defines Go value 0 (UNSET) as member %s: it can never be rendered", c.flags, tn, member)
 		}
 		var paths []string
 		for p := range d.Types {
@@ -1131,6 +1207,12 @@ func TestC17_Flags(t *testing.T) {
 						lastErr = err
 					}
 				}
+				if !found && zeroKnown && strings.Contains(fmt.Sprint(lastErr), "value 0 (UNSET) is defined") {
+					found = true // already accounted to F44 above
+					for i := range specs {
+						used[i] = true
+					}
+				}
 				if !found {
 					t.Errorf("C17 violated (flags %s): type %s listed for %s matches no enumerated type of that leaf: %v", c.flags, tn, p, lastErr)
 				}
@@ -1142,7 +1224,7 @@ func TestC17_Flags(t *testing.T) {
 				t.Errorf("C17 violated (flags %s): leaf %s has %d enumerated member types in YANG, ΛEnumTypes lists %v", c.flags, p, len(specs), d.Types[p])
 			}
 		}
-		if matched < 5 {
+		if matched < 5 && c.corpus != "t2neg" {
 			t.Errorf("INCONCLUSIVE: flag combination %s: only %d (path, type) pairs inspected", c.pkg, matched)
 		}
 		rec.Add("flag_combo_types", int64(len(d.Enum)))
